@@ -53,6 +53,10 @@ func (p *Pkg) switchTable(name, fn, tagName string) {
 }
 
 func extractMore(pkgs map[string]*Pkg) {
+	extractLabel(pkgs[mod+"/rfc1035label"])
+	extractServer(pkgs)
+	extractV4Acc(pkgs[mod+"/dhcpv4"])
+	extractRaw(pkgs[mod+"/dhcpv4/nclient4"])
 	if p := pkgs[mod+"/dhcpv6"]; p != nil {
 		p.switchTable("parseOptionTable", "ParseOption", "code")
 		p.switchTable("ntpSuboptionTable", "parseNTPSuboption", "code")
